@@ -329,9 +329,16 @@ func sumOK(xs ...uint64) (uint64, bool) {
 	return s, ok
 }
 
-// vcNoWrap mirrors the Lean guard `noWrapCore` (used only to label L2 failures, so that the
-// known wrap-around finding is told apart from anything else).
-func vcNoWrap(e MemoryEstimate, d vcDerived, gpus discover.GpuInfoList, overhead uint64) bool {
+// vcWraps names the first of the estimator's OWN sums that can exceed 64 bits for this input, mirroring the Lean
+// guard `NoWrap` of the variant the tree is expected to implement (fix C16-W1: the overhead is in no sum, so it is
+// not an operand here either):
+//   "admit"   gzo + max(gP,gF) + MinimumMemory + 2*layerSize          (admission requirement of some GPU)
+//   "place"   the above + FreeMemory + L                               (bound of alloc + max(gP,gF) + L, L any layer / output)
+//   "summary" sum(FreeMemory) + blocks*lastLayer + memoryLayerOutput   (memoryRequiredPartial / overflow / total)
+//   "none"    the guard holds.
+// Used only to label L2 failures, so that the known remaining wrap-around (finding W2) is told apart from anything else;
+// a failure that only involves a huge OLLAMA_GPU_OVERHEAD is "none" (finding W1 is fixed: it must not come back).
+func vcWraps(e MemoryEstimate, d vcDerived, gpus discover.GpuInfoList) string {
 	gzo, ok := sumOK(e.projectorWeights, e.projectorGraph)
 	if !ok {
 		// the estimator's own gzo wrapped: the core constants are the wrapped ones
@@ -339,17 +346,26 @@ func vcNoWrap(e MemoryEstimate, d vcDerived, gpus discover.GpuInfoList, overhead
 	}
 	maxg := max(e.graphPartialOffload, e.graphFullOffload)
 	needs := append([]uint64{e.memoryLayerOutput}, d.layerSizes...)
+	for _, g := range gpus {
+		if _, ok := sumOK(gzo, maxg, g.MinimumMemory, d.layer0, d.layer0); !ok {
+			return "admit"
+		}
+	}
 	var sumFree uint64
+	sumWraps := false
 	for _, g := range gpus {
 		var ok bool
 		if sumFree, ok = sumOK(sumFree, g.FreeMemory); !ok {
-			return false
+			sumWraps = true
 		}
 		for _, L := range needs {
-			if _, ok := sumOK(overhead, gzo, maxg, g.MinimumMemory, d.layer0, d.layer0, g.FreeMemory, L); !ok {
-				return false
+			if _, ok := sumOK(gzo, maxg, g.MinimumMemory, d.layer0, d.layer0, g.FreeMemory, L); !ok {
+				return "place"
 			}
 		}
+	}
+	if sumWraps {
+		return "summary"
 	}
 	last := d.layer0
 	if len(d.layerSizes) > 0 {
@@ -357,10 +373,16 @@ func vcNoWrap(e MemoryEstimate, d vcDerived, gpus discover.GpuInfoList, overhead
 	}
 	hi, lo := bits.Mul64(uint64(d.blocks), last)
 	if hi != 0 {
-		return false
+		return "summary"
 	}
-	_, ok = sumOK(sumFree, lo, e.memoryLayerOutput)
-	return ok
+	if _, ok = sumOK(sumFree, lo, e.memoryLayerOutput); !ok {
+		return "summary"
+	}
+	return "none"
+}
+
+func vcNoWrap(e MemoryEstimate, d vcDerived, gpus discover.GpuInfoList, overhead uint64) bool {
+	return vcWraps(e, d, gpus) == "none"
 }
 
 func vcL2(out *zzverif.Out, cfg *vcCfg, caseLine string, r *vcResult) {
@@ -370,8 +392,8 @@ func vcL2(out *zzverif.Out, cfg *vcCfg, caseLine string, r *vcResult) {
 	}
 	blocks := r.d.blocks
 	fail := func(kind string, gi int, format string, a ...any) {
-		nw := vcNoWrap(r.ests[gi], r.d, r.groups[gi], cfg.Overhead)
-		out.L2(kind, caseLine, fmt.Sprintf("group=%d nowrap=%v ", gi, nw)+fmt.Sprintf(format, a...))
+		w := vcWraps(r.ests[gi], r.d, r.groups[gi])
+		out.L2(kind, caseLine, fmt.Sprintf("group=%d nowrap=%v wraps=%s ", gi, w == "none", w)+fmt.Sprintf(format, a...))
 	}
 	placedAll := false
 	placedEvery := false
@@ -452,6 +474,33 @@ func vcL2(out *zzverif.Out, cfg *vcCfg, caseLine string, r *vcResult) {
 				placedEvery = true
 			}
 			maxPlaced = max(maxPlaced, e.Layers)
+		}
+	}
+	if r.fit {
+		// the VRAM figure PredictServerFit returns is that of a group whose estimate places all requested layers, and
+		// (guard permitting) it fits into the free memory of that group's GPUs together
+		found := false
+		for gi, e := range r.ests {
+			okLayers := (cfg.NumGPU < 0 && e.Layers == blocks+1) || (cfg.NumGPU >= 0 && e.Layers > 0 && e.Layers >= min(cfg.NumGPU, blocks+1))
+			if !okLayers || e.VRAMSize != r.vram {
+				continue
+			}
+			found = true
+			var sumFree uint64
+			wrap := false
+			for _, g := range r.groups[gi] {
+				var ok bool
+				if sumFree, ok = sumOK(sumFree, g.FreeMemory); !ok {
+					wrap = true
+				}
+			}
+			if !wrap && r.vram > sumFree {
+				fail("fit-vram-exceeds-free", gi, "fit=true with vram=%d > free memory of the group's GPUs together=%d", r.vram, sumFree)
+			}
+			break
+		}
+		if !found && placedAll {
+			out.L2("fit-vram-mismatch", caseLine, fmt.Sprintf("fit=true vram=%d is not the VRAMSize of any library group that placed all requested layers", r.vram))
 		}
 	}
 	if r.fit && !placedAll {
@@ -1022,11 +1071,10 @@ var vcVariant = 0
 // vcDetectVariant probes the REAL estimator with the W1 input (OLLAMA_GPU_OVERHEAD = 2^64-1, one
 // GPU with 1 GiB free): the pinned comparisons wrap and offload layers (variant 0); with fix C16-W1
 // (`free < overhead || free-overhead < ...`) nothing is offloaded (variant 1).  A tree that is
-// neither shows up as L1 disagreements.  VERIF_C16_VARIANT overrides the probe.
+// neither shows up as L1 disagreements.  The probe is REPORTED (stats code_variant_<n>, Generated/C16_Variant.lean);
+// the model is run at the variant the tree is expected to have (1: finding W1 is fixed) unless the caller sets
+// VERIF_C16_VARIANT — a tree that lost the fix then disagrees with the model and fails the L2 clause with an input.
 func vcDetectVariant(dir string) int {
-	if v := os.Getenv("VERIF_C16_VARIANT"); v != "" {
-		return zzverif.EnvInt("VERIF_C16_VARIANT", 0)
-	}
 	cfg := &vcCfg{Model: vcFile{Arch: "llama", Vocab: 4, U32: map[string]uint32{
 		"block_count": 2, "embedding_length": 64, "attention.head_count": 8, "attention.head_count_kv": 8, "context_length": 2048},
 		Tensors: []vcTensor{{Name: "blk.0.attn_q.weight", Kind: 0, Shape: []uint64{1048576}}, {Name: "blk.1.attn_q.weight", Kind: 0, Shape: []uint64{1048576}},
@@ -1048,6 +1096,16 @@ func vcDetectVariant(dir string) int {
 	return 1
 }
 
+// TestVerifC16Probe: only the variant probe (run first by the check; its answer is written to Generated/C16_Variant.lean).
+func TestVerifC16Probe(t *testing.T) {
+	slog.SetDefault(slog.New(slog.NewTextHandler(io.Discard, nil)))
+	t.Setenv("OLLAMA_FLASH_ATTENTION", "")
+	t.Setenv("OLLAMA_KV_CACHE_TYPE", "")
+	out := zzverif.NewOut()
+	defer out.Close()
+	out.Count(fmt.Sprintf("code_variant_%d", vcDetectVariant(t.TempDir())))
+}
+
 func TestVerifC16(t *testing.T) {
 	slog.SetDefault(slog.New(slog.NewTextHandler(io.Discard, nil)))
 	t.Setenv("OLLAMA_FLASH_ATTENTION", "")
@@ -1056,8 +1114,9 @@ func TestVerifC16(t *testing.T) {
 	out := zzverif.NewOut()
 	defer out.Close()
 	v := &vcRunner{out: out, dir: t.TempDir()}
-	vcVariant = vcDetectVariant(v.dir)
-	out.Count(fmt.Sprintf("code_variant_%d", vcVariant))
+	out.Count(fmt.Sprintf("code_variant_%d", vcDetectVariant(v.dir)))
+	vcVariant = zzverif.EnvInt("VERIF_C16_VARIANT", 1)
+	out.Count(fmt.Sprintf("model_variant_%d", vcVariant))
 
 	if rp := os.Getenv("VERIF_REPLAY"); rp != "" {
 		raw, err := os.ReadFile(rp)
@@ -1103,5 +1162,245 @@ func TestVerifC16(t *testing.T) {
 	root := zzverif.NewRng(zzverif.Seed())
 	for v.cases < target {
 		v.model(root.Fork(), 6)
+	}
+}
+
+// ---------------------------------------------------------------------------------------------
+// GGML.GraphSize (fs/ggml/ggml.go): the estimator's derived inputs kv[i] / partialOffload / fullOffload
+//
+//   L1: the REAL f.GraphSize(context, batch, numParallel, kvCacheType) on synthetic GGUFs of every architecture of
+//       its switch (llama incl. both mixtral branches, mllama, gemma/gemma2/gemma3, command-r, qwen2, phi2, stablelm,
+//       deepseek2, chatglm with/without attn_qkv.bias, an unknown architecture) == oracle `c16graph` (model
+//       `graphSize`: every uint64 + / * wrapping, float64 rounding of the KV figure in integer arithmetic).
+//   L2: `graph-kv-length` — len(kv) != BlockCount (the estimator indexes kv[i] for every block).
+
+type vgCfg struct {
+	Kind    string            `json:"kind"` // "graph"
+	Arch    string            `json:"arch"`
+	U32     map[string]uint32 `json:"u32"`
+	Cross   []int32           `json:"cross,omitempty"`
+	Vocab   int               `json:"vocab"`
+	Tensors []vcTensor        `json:"t"`
+	Ctx     uint64            `json:"ctx"`
+	Batch   uint64            `json:"batch"`
+	P       int               `json:"p"`
+	KVCT    string            `json:"kvct"`
+}
+
+func vgWrite(dir string, cfg *vgCfg) (*ggml.GGML, error) {
+	kv := ggml.KV{"general.architecture": cfg.Arch}
+	for k, v := range cfg.U32 {
+		kv[cfg.Arch+"."+k] = v
+	}
+	if cfg.Cross != nil {
+		kv[cfg.Arch+".attention.cross_attention_layers"] = append([]int32(nil), cfg.Cross...)
+	}
+	toks := make([]string, cfg.Vocab)
+	for i := range toks {
+		toks[i] = "t"
+	}
+	kv["tokenizer.ggml.tokens"] = toks
+	var ts []ggml.Tensor
+	for _, t := range cfg.Tensors {
+		ts = append(ts, ggml.Tensor{Name: t.Name, Kind: t.Kind, Shape: append([]uint64(nil), t.Shape...), WriterTo: bytes.NewReader(nil)})
+	}
+	p := filepath.Join(dir, "g.gguf")
+	f, err := os.Create(p)
+	if err != nil {
+		return nil, err
+	}
+	if err := ggml.WriteGGUF(f, kv, ts); err != nil {
+		f.Close()
+		return nil, err
+	}
+	f.Close()
+	return LoadModel(p, 0)
+}
+
+func vgOp(cfg *vgCfg, f *ggml.GGML) string {
+	kv := f.KV()
+	a := kv.Architecture()
+	opt32 := func(key string) string {
+		v, ok := kv[a+"."+key].(uint32)
+		return optU(ok, uint64(v))
+	}
+	layers := f.Tensors().GroupLayers()
+	exps, g1, qb := "-", "-", "-"
+	if t, ok := layers["blk.0"]["ffn_gate_exps.weight"]; ok {
+		exps = strconv.FormatUint(t.Size(), 10)
+	}
+	if t, ok := layers["blk.0"]["ffn_gate.0.weight"]; ok && len(t.Shape) > 1 {
+		g1 = strconv.FormatUint(t.Shape[1], 10)
+	}
+	if t, ok := layers["blk.0"]["attn_qkv.bias"]; ok && len(t.Shape) > 0 {
+		qb = strconv.FormatUint(t.Shape[0], 10)
+	}
+	rope := uint64(0)
+	if rf, ok := layers["rope_freqs"]; ok {
+		if w, ok := rf["weights"]; ok {
+			rope = 1
+			for _, n := range w.Shape {
+				rope *= n
+			}
+		}
+	}
+	kvct := 0
+	switch cfg.KVCT {
+	case "q8_0":
+		kvct = 1
+	case "q4_0":
+		kvct = 2
+	}
+	var sb strings.Builder
+	fmt.Fprintf(&sb, "c16graph %s %d %d %d %d %d %d %d %d %s %s %d %s %d %s", a, cfg.Ctx, cfg.Batch, cfg.P, kvct,
+		kv.BlockCount(), kv.EmbeddingLength(), kv.HeadCount(), kv.HeadCountKV(), opt32("attention.key_length"),
+		opt32("attention.value_length"), cfg.Vocab, exps, kv.Uint("feed_forward_length"), g1)
+	cross := kv.Uints("attention.cross_attention_layers")
+	fmt.Fprintf(&sb, " %d", len(cross))
+	for _, c := range cross {
+		fmt.Fprintf(&sb, " %d", c)
+	}
+	fmt.Fprintf(&sb, " %d %d %s", rope, kv.Uint("attention.sliding_window"), qb)
+	return sb.String()
+}
+
+func vgRun(out *zzverif.Out, dir string, cfg *vgCfg) {
+	js, _ := json.Marshal(cfg)
+	caseLine := string(js)
+	f, err := vgWrite(dir, cfg)
+	if err != nil {
+		panic(err)
+	}
+	impl := ""
+	var kvs []uint64
+	func() {
+		defer func() {
+			if x := recover(); x != nil {
+				impl = "panic:" + strings.ReplaceAll(fmt.Sprint(x), "\n", " ")
+			}
+		}()
+		var gp, gf uint64
+		kvs, gp, gf = f.GraphSize(cfg.Ctx, cfg.Batch, cfg.P, cfg.KVCT)
+		parts := make([]string, len(kvs))
+		for i, v := range kvs {
+			parts[i] = strconv.FormatUint(v, 10)
+		}
+		ks := strings.Join(parts, ",")
+		if len(parts) == 0 {
+			ks = "-"
+		}
+		impl = fmt.Sprintf("kv=%s gp=%d gf=%d", ks, gp, gf)
+	}()
+	out.Case(vgOp(cfg, f), impl)
+	out.Count("graph_cases")
+	out.Count("graph_arch_" + cfg.Arch)
+	out.Count("graph_kvct_" + map[string]string{"q8_0": "q8_0", "q4_0": "q4_0"}[cfg.KVCT])
+	if strings.HasPrefix(impl, "panic:") {
+		out.L2("panic", caseLine, impl)
+		return
+	}
+	if uint64(len(kvs)) != f.KV().BlockCount() {
+		out.L2("graph-kv-length", caseLine, fmt.Sprintf("len(kv)=%d block_count=%d", len(kvs), f.KV().BlockCount()))
+	}
+	if len(kvs) > 0 {
+		x := cfg.Ctx * (f.KV().EmbeddingHeadCountK() + f.KV().EmbeddingHeadCountV()) * f.KV().HeadCountKV()
+		if x >= 1<<53 {
+			out.Count("graph_kv_float_rounding")
+		}
+	}
+	if bits.Len64(cfg.Ctx)+bits.Len64(cfg.Batch) > 50 {
+		out.Count("graph_wrap_likely")
+	}
+}
+
+func vgGen(r *zzverif.Rng) *vgCfg {
+	kinds := []string{"llama", "llama", "llama-exps", "llama-gate", "mllama", "gemma", "gemma2", "gemma3", "command-r", "qwen2", "phi2",
+		"stablelm", "deepseek2", "chatglm", "chatglm-bias", "verifarch"}
+	kind := zzverif.Pick(r, kinds)
+	cfg := &vgCfg{Kind: "graph", Arch: strings.SplitN(kind, "-", 2)[0], U32: map[string]uint32{}}
+	if kind == "command-r" {
+		cfg.Arch = "command-r"
+	}
+	blocks := r.Range(0, 12)
+	cfg.U32["block_count"] = uint32(blocks)
+	cfg.U32["embedding_length"] = uint32(zzverif.Pick(r, []int{0, 64, 1024, 4096, 5120, r.Range(1, 16384)}))
+	heads := zzverif.Pick(r, []int{1, 8, 32, 40, 64, 0})
+	if kind == "llama-gate" && heads == 0 {
+		heads = 8 // 6*context*headsKV/heads: a zero head count panics there (recorded in notes/C16.md, C10's clause)
+	}
+	if heads > 0 || r.Bool() {
+		cfg.U32["attention.head_count"] = uint32(heads)
+	}
+	if r.Chance(3, 4) {
+		cfg.U32["attention.head_count_kv"] = uint32(zzverif.Pick(r, []int{1, 2, 8, 32}))
+	}
+	if r.Chance(1, 3) {
+		cfg.U32["attention.key_length"] = uint32(zzverif.Pick(r, []int{64, 128, 256}))
+	}
+	if r.Chance(1, 3) {
+		cfg.U32["attention.value_length"] = uint32(zzverif.Pick(r, []int{64, 128, 256}))
+	}
+	cfg.Vocab = zzverif.Pick(r, []int{1, 3, 50, r.Range(1, 3000)})
+	switch kind {
+	case "llama-exps":
+		cfg.U32["feed_forward_length"] = uint32(zzverif.Pick(r, []int{0, 14336, r.Range(1, 65536)}))
+		cfg.Tensors = append(cfg.Tensors, vcTensor{Name: "blk.0.ffn_gate_exps.weight", Kind: uint32(zzverif.Pick(r, []int{0, 1})), Shape: []uint64{uint64(r.Range(1, 64)), uint64(r.Range(1, 64)), uint64(r.Range(1, 8))}})
+	case "llama-gate":
+		cfg.Tensors = append(cfg.Tensors, vcTensor{Name: "blk.0.ffn_gate.0.weight", Kind: 0, Shape: []uint64{uint64(r.Range(1, 64)), uint64(r.Range(1, 20000))}})
+	case "mllama":
+		cfg.Cross = []int32{}
+		for i := 0; i < blocks+2; i++ {
+			if r.Chance(1, 4) {
+				cfg.Cross = append(cfg.Cross, int32(i))
+			}
+		}
+		if r.Bool() {
+			cfg.Tensors = append(cfg.Tensors, vcTensor{Name: zzverif.Pick(r, []string{"rope_freqs.weights", "rope_freqs.weight"}), Kind: 0, Shape: []uint64{uint64(r.Range(1, 128))}})
+		}
+	case "gemma3":
+		cfg.U32["attention.sliding_window"] = uint32(zzverif.Pick(r, []int{0, 512, 1024, 4096}))
+	case "chatglm-bias":
+		cfg.Tensors = append(cfg.Tensors, vcTensor{Name: "blk.0.attn_qkv.bias", Kind: 0, Shape: []uint64{uint64(r.Range(1, 8192))}})
+	}
+	if len(cfg.Tensors) == 0 || r.Bool() {
+		cfg.Tensors = append(cfg.Tensors, vcTensor{Name: "blk.0.attn_q.weight", Kind: 0, Shape: []uint64{8}})
+	}
+	cfg.Ctx = zzverif.Pick(r, []uint64{1, 4, 512, 2048, 8192, 131072, uint64(r.Range(1, 1<<20))})
+	cfg.Batch = zzverif.Pick(r, []uint64{1, 512, 512, 2048, uint64(r.Range(1, 4096))})
+	switch r.Intn(12) {
+	case 0: // products beyond 2^53 (float64 rounding of the KV figure) and beyond 2^64 (wrap-around)
+		cfg.Ctx = r.U64() >> uint(r.Range(8, 30))
+	case 1:
+		cfg.Ctx = r.U64() >> uint(r.Range(0, 24))
+		cfg.Batch = r.U64() >> uint(r.Range(20, 60))
+	case 2:
+		cfg.Ctx = (uint64(1) << uint(r.Range(40, 52))) + uint64(r.Intn(5)) - 2
+	}
+	cfg.P = zzverif.Pick(r, []int{1, 1, 2, 4, 16})
+	cfg.KVCT = zzverif.Pick(r, []string{"", "", "f16", "q8_0", "q4_0", "junk"})
+	return cfg
+}
+
+func TestVerifC16Graph(t *testing.T) {
+	slog.SetDefault(slog.New(slog.NewTextHandler(io.Discard, nil)))
+	out := zzverif.NewOut()
+	defer out.Close()
+	dir := t.TempDir()
+	if rp := os.Getenv("VERIF_REPLAY"); rp != "" {
+		raw, err := os.ReadFile(rp)
+		if err != nil {
+			t.Fatal(err)
+		}
+		var cfg vgCfg
+		if err := json.Unmarshal(bytes.TrimSpace(raw), &cfg); err != nil || cfg.Kind != "graph" {
+			t.Fatalf("replay case is not a C16 GraphSize configuration: %v", err)
+		}
+		vgRun(out, dir, &cfg)
+		return
+	}
+	target := zzverif.EnvInt("VERIF_N", 3000)
+	root := zzverif.NewRng(zzverif.Seed() ^ 0x6AF)
+	for k := 0; k < target; k++ {
+		vgRun(out, dir, vgGen(root.Fork()))
 	}
 }
